@@ -27,7 +27,7 @@ RULE = (
     "(two jobs interleaved); exhaustive: >=2 jobs and >=3 operations. Distinct "
     "by SHA-1 of the canonical case JSON."
 )
-BUDGET = {"quick": 1200, "thorough": 4000}
+BUDGET = {"quick": 1200, "thorough": 12000}
 ASSUMPTIONS = [
     "the feasibility checker in jsverif/feasible.py is the definition of feasible",
     "instances are within the generated shapes (DESIGN.md 2.3)",
